@@ -297,8 +297,8 @@ def run(ctx):
         replay_only(ctx, exe)
         cr.report_broken(ctx, broken, "replay only")
         return
-    stage_select(ctx, exe, 5000 if ctx.quick else 100000)
-    stage_falsifier(ctx, 600 if ctx.quick else 20000)
+    stage_select(ctx, exe, 5000 if ctx.quick else 200000)
+    stage_falsifier(ctx, 600 if ctx.quick else 50000)
     ctx.cov["rule"] = ("selection: generated soxr_create calls over recipes x flag words (VR, DOUBLE_PRECISION, HI_PREC_CLOCK, roll-offs, high bits) x precision "
                        "overrides around 20 (incl. the neighbours of 20.0 and NaN) x NULL quality spec x SOXR_USE_SIMD / SIMD32 / SIMD64 unset, 0, 1 and garbage "
                        "strings, followed by soxr_engine() after clear / process / set_num_channels: real answers vs the Lean model `selectEngine` / `step` "
